@@ -128,8 +128,9 @@ impl<T: Alignment> Write for AlignedCursor<T> {
         }
 
         let cap = self.vec.len().saturating_mul(std::mem::size_of::<T>());
-        let rem = cap - self.pos;
-        if rem < len {
+        // The position can be beyond the capacity (e.g., after a seek):
+        // in that case the gap is zero-filled by the resize.
+        if cap < self.pos + len {
             self.vec.resize(
                 (self.pos + len).div_ceil(std::mem::size_of::<T>()),
                 T::default(),
